@@ -41,7 +41,7 @@ import (
 func main() {
 	// a runaway recursion must die quickly: the default limit of 1 GB per goroutine stack takes many seconds to
 	// reach; the outcome (fatal error: stack overflow, process killed) is the same
-	debug.SetMaxStack(96 << 20)
+	debug.SetMaxStack(32 << 20)
 	hx.Commands["run"] = run
 	hx.Commands["builtins-tla"] = builtinsTLA
 	hx.Main()
@@ -254,7 +254,8 @@ func callsVCL(c *tcase) string {
 	if c.Functional {
 		sb.WriteString("sub vcl_recv {\n  set req.http.R = s1();\n  error 600;\n}\nsub vcl_error {\n  return (deliver);\n}\n")
 		for n := 1; n <= 3; n++ {
-			fmt.Fprintf(&sb, "sub s%d STRING {\n  declare local var.x STRING;\n  set req.http.Depth = req.http.Depth \"%d\";\n", n, n)
+			// no request header is written here: the request workspace accounting would end the recursion first
+			fmt.Fprintf(&sb, "sub s%d STRING {\n  declare local var.x STRING;\n  declare local var.d INTEGER;\n  set var.d += %d;\n", n, n)
 			for _, e := range c.Edges {
 				if e[0] == n {
 					fmt.Fprintf(&sb, "  set var.x = s%d();\n", e[1])
@@ -266,7 +267,7 @@ func callsVCL(c *tcase) string {
 	}
 	sb.WriteString("sub vcl_recv {\n  call s1;\n  error 600;\n}\nsub vcl_error {\n  return (deliver);\n}\n")
 	for n := 1; n <= 3; n++ {
-		fmt.Fprintf(&sb, "sub s%d {\n  set req.http.Depth = req.http.Depth \"%d\";\n", n, n)
+		fmt.Fprintf(&sb, "sub s%d {\n  declare local var.d INTEGER;\n  set var.d += %d;\n", n, n)
 		for _, e := range c.Edges {
 			if e[0] == n {
 				fmt.Fprintf(&sb, "  call s%d;\n", e[1])
